@@ -9,6 +9,7 @@ import Driver.Config
 import Driver.Proxyflow
 import Driver.Forward
 import Driver.Authflow
+import Driver.Htmlesc
 open Lean Sso.Drv
 
 /-! `ssoverif <trace.jsonl>`: one verdict line per case, then a summary line. -/
@@ -25,6 +26,7 @@ def dispatch (e : String) (j : Json) : Except String Verdict :=
   | "proxyflow" => Sso.Drv.Proxyflow.checkCase j
   | "forward" => Sso.Drv.Forward.checkCase j
   | "authflow" => Sso.Drv.Authflow.checkCase j
+  | "htmlesc" => Sso.Drv.Htmlesc.checkCase j
   | _ => throw s!"unknown engine {e}"
 
 partial def loop (h : IO.FS.Stream) (out : IO.FS.Stream) (n bad : Nat) : IO (Nat × Nat) := do
